@@ -51,6 +51,7 @@ func (c wsCase) String() string {
 }
 
 type wsEvent struct {
+	sid    string // server side: id of the session the event belongs to
 	side   string // server | client
 	kind   string // packet | close
 	msg    gotMsg
@@ -88,28 +89,32 @@ func runWSCase(c *ctx, wc wsCase, limIdx int, st *partStats) {
 		default: // nobody listens any more (after the verdict)
 		}
 	}
-	callbacks := func(side string) *eio.Callbacks {
+	callbacks := func(side, sid string) *eio.Callbacks {
 		return &eio.Callbacks{
 			OnPacket: func(packets ...*parser.Packet) {
 				for _, p := range packets {
 					if g, ok := classify(p); ok {
-						push(wsEvent{side: side, kind: "packet", msg: g, binary: p.IsBinary})
+						push(wsEvent{sid: sid, side: side, kind: "packet", msg: g, binary: p.IsBinary})
 					}
 				}
 			},
 			OnClose: func(reason eio.Reason, err error) {
-				push(wsEvent{side: side, kind: "close", close: closeInfo{string(reason), errString(err)}})
+				push(wsEvent{sid: sid, side: side, kind: "close", close: closeInfo{string(reason), errString(err)}})
 			},
 		}
 	}
-	sockCh := make(chan eio.ServerSocket, 4)
+	// The server listens on a loopback port, and port numbers are recycled: a stray client of some
+	// other process on this machine (e.g. a Socket.IO client of another test run reconnecting to a
+	// port it used before) may open a session of its own here. Only the session of the client dialed
+	// below counts: server side events carry their session id and are matched with the client's.
+	sockCh := make(chan eio.ServerSocket, 64)
 	cfg := quietHeartbeat(spec.cfg)
 	srv := eio.NewServer(func(s eio.ServerSocket) *eio.Callbacks {
 		select {
 		case sockCh <- s:
 		default:
 		}
-		return callbacks("server")
+		return callbacks("server", s.ID())
 	}, &cfg)
 	if err := srv.Run(); err != nil {
 		c.harnessErr("ws rig: " + err.Error())
@@ -125,6 +130,7 @@ func runWSCase(c *ctx, wc wsCase, limIdx int, st *partStats) {
 				cli.Close()
 			}
 			srv.Close()
+			ts.CloseClientConnections()
 			ts.Close()
 			close(done)
 		}()
@@ -141,7 +147,7 @@ func runWSCase(c *ctx, wc wsCase, limIdx int, st *partStats) {
 	defer deadline.Stop()
 
 	var err error
-	cli, err = eio.Dial(ts.URL, callbacks("client"), &eio.ClientConfig{Transports: []string{"websocket"}})
+	cli, err = eio.Dial(ts.URL, callbacks("client", ""), &eio.ClientConfig{Transports: []string{"websocket"}})
 	if err != nil {
 		c.harnessErr("ws rig: dial: " + err.Error())
 		return
@@ -150,12 +156,20 @@ func runWSCase(c *ctx, wc wsCase, limIdx int, st *partStats) {
 		c.harnessErr("ws rig: transport is " + cli.TransportName())
 		return
 	}
+	mySID := cli.ID()
 	var ss eio.ServerSocket
-	select {
-	case ss = <-sockCh:
-	case <-deadline.C:
-		c.capHit("ws rig: server socket callback did not arrive within 60 s")
-		return
+	for ss == nil {
+		select {
+		case s := <-sockCh:
+			if s.ID() == mySID {
+				ss = s
+			} else {
+				c.anomaly("ws rig: a session that is not the harness's was opened on the case's loopback server (ignored)")
+			}
+		case <-deadline.C:
+			c.capHit("ws rig: server socket callback did not arrive within 60 s")
+			return
+		}
 	}
 
 	// The announced limit is what the configuration says (the polling part checks the announcement).
@@ -187,8 +201,13 @@ func runWSCase(c *ctx, wc wsCase, limIdx int, st *partStats) {
 		sender.Send(barrier)
 	}()
 
+	// What the receiver saw. A message counts as "the tested message" only if it has the tested size;
+	// any other non-barrier message is unexpected: it is recorded (coverage detail, for diagnosis) but
+	// is neither a delivery of the tested message nor, being no larger than the barrier or not the
+	// size under test, a verdict on the limit.
 	var testedGot *gotMsg
 	var testedBinary bool
+	var oversizeGot *gotMsg // any delivered message larger than the limit (the property itself)
 	barrierGot, closedRecv := false, false
 	var closeSeen closeInfo
 	timedOut := false
@@ -199,6 +218,10 @@ wait:
 			if e.side != recvSide {
 				continue // the sender's own close follows or precedes; the receiver's view decides
 			}
+			if e.side == "server" && e.sid != mySID {
+				c.anomaly("ws rig: event of a session that is not the harness's (ignored)")
+				continue
+			}
 			switch {
 			case e.kind == "close":
 				closedRecv, closeSeen = true, e.close
@@ -207,11 +230,16 @@ wait:
 				barrierGot = true
 				break wait
 			default:
-				if testedGot == nil {
-					g := e.msg
-					testedGot, testedBinary = &g, e.binary
+				g := e.msg
+				if limit > 0 && g.wire > limit && wc.Dir == "c2s" && oversizeGot == nil {
+					oversizeGot = &g
 				}
-				if over && wc.Dir == "c2s" {
+				if g.wire == wc.Size && testedGot == nil {
+					testedGot, testedBinary = &g, e.binary
+				} else if g.wire != wc.Size {
+					c.anomaly(fmt.Sprintf("%s: the %s received an unexpected %d-byte message (data starts %s)", wc.String(), recvSide, g.wire, g.head))
+				}
+				if oversizeGot != nil {
 					break wait // already decided
 				}
 			}
@@ -226,8 +254,8 @@ wait:
 	switch {
 	case wc.Dir == "c2s" && over:
 		switch {
-		case testedGot != nil:
-			report(kWSOverDelivered, fmt.Sprintf("OnPacket received a %d-byte message (data starts %s; limit %d)", testedGot.wire, testedGot.head, limit))
+		case oversizeGot != nil:
+			report(kWSOverDelivered, fmt.Sprintf("OnPacket received a %d-byte message (data starts %s; limit %d)", oversizeGot.wire, oversizeGot.head, limit))
 		case barrierGot:
 			report(kWSOverOpen, "the barrier message sent after it was delivered")
 		case timedOut:
